@@ -77,12 +77,19 @@ def le(a, b):
 _RET_LB = {}
 
 
-def fn_return_lb(body, depth=0, ok_payload=False):
+def _cparam_of_call(c):
+    """the value of the single const generic argument of a call (`f::<2>(..)`), or None"""
+    fn = getattr(c, "fn", None) or {}
+    vals = [int(m.group(1)) for m in (re.match(r"const (\d+)$", str(a)) for a in (fn.get("rargs") or fn.get("args") or [])) if m]
+    return vals[0] if len(vals) == 1 else None
+
+
+def fn_return_lb(body, depth=0, ok_payload=False, cparam=None):
     """a lower bound of the unsigned integer a workspace function returns (min over the values assigned
     to its return place; a multiply-assigned local contributes the min over its definitions); with
     ok_payload: of the usize inside the Ok(..) it returns (Err returns are ignored; forwarded results of
     other workspace functions are followed)"""
-    ck = (body.key, ok_payload)
+    ck = (body.key, ok_payload, cparam)
     if ck in _RET_LB:
         return _RET_LB[ck]
     _RET_LB[ck] = 0
@@ -101,6 +108,8 @@ def fn_return_lb(body, depth=0, ok_payload=False):
                         op = rv["ops"][0]
                         if op["k"] == "const":
                             v = const_int(op)
+                            if v is None and cparam is not None and not any(k_ in op for k_ in ("bits", "named", "fn", "str", "promoted")):
+                                v = cparam              # `Ok(N)` in a function generic over N, called as f::<cparam>
                             vals.append(v if v is not None and v >= 0 else 0)
                         elif op["k"] == "const" or op["place"]["p"]:
                             vals.append(0)
@@ -118,7 +127,7 @@ def fn_return_lb(body, depth=0, ok_payload=False):
                 if re.search(r"FromResidual<.*>>::from_residual$", c.full) or re.search(r"from_residual$", c.callee_path):
                     return
                 cb = body.prog.bodies.get(c.callee_key) if c.resolved else None
-                vals.append(fn_return_lb(cb, depth + 1, ok_payload=True) if cb is not None and depth < 4 else 0)
+                vals.append(fn_return_lb(cb, depth + 1, ok_payload=True, cparam=_cparam_of_call(c)) if cb is not None and depth < 4 else 0)
             else:
                 vals.append(0)
         for d in pr.q.whole_defs(0):
@@ -235,6 +244,11 @@ class Prover:
         if op["k"] == "const":
             v = const_int(op)
             if v is None:
+                # an unevaluated integer constant (a const generic parameter of this function): one unknown, the same
+                # everywhere in the body
+                if not any(k_ in op for k_ in ("bits", "named", "fn", "str", "promoted", "fval")) and \
+                        self.body.tystr(op["ty"]) in ("usize", "u8", "u16", "u32", "u64"):
+                    return Lin(0, {("cparam", self.body.tystr(op["ty"])): 1})
                 return None
             return Lin(v)
         pl = op["place"]
@@ -1161,15 +1175,18 @@ class Prover:
         return False, "no rule for assert " + msg
 
 
-def verify_encode_contract(body):
+def verify_encode_contract(body, slice_param=None, depth0=0):
     """C14 R14.4: every Ok(n) an encoder returns has n <= a proven lower bound of its output slice (or is the
-    result of another contract encoder applied to (a sub-slice of) the same output).  -> list of problems"""
+    result of another contract encoder applied to (a sub-slice of) the same output).  -> list of problems
+    slice_param: for a helper a refactoring split off an encoder, the parameter (1-based local) holding the output slice"""
     pr = Prover(body)
     q = pr.q
-    is_ctx = bool(ENC_CTX_RX.search(body.path))
-    if body.arg_count < 2:
+    is_ctx = bool(ENC_CTX_RX.search(body.path)) and slice_param is None
+    if body.arg_count < (1 if slice_param else 2):
         return ["unexpected signature"]
-    if is_ctx:
+    if slice_param is not None:
+        my_root = ("arg", slice_param)
+    elif is_ctx:
         my_root = ("accessor", repr({"l": 2, "p": []}), "raw_value")
     else:
         si = enc_slice_arg(body.path)
@@ -1277,6 +1294,17 @@ def verify_encode_contract(body):
                     return
                 problems.append("forwards the result of %s on a different context" % p)
                 return
+            # a non-public helper that is not in the reference tree (split off by a refactoring) and receives my output
+            # slice: the contract is checked on the helper, for that parameter
+            from .absint import _known_functions
+            known = _known_functions()
+            hb = body.prog.bodies.get(c.callee_key) if getattr(c, "callee_key", None) else None
+            if hb is not None and known and hb.path not in known and not hb.is_public and depth0 < 3:
+                idx = [i_ for i_, a_ in enumerate(c.args) if a_["k"] != "const" and derives_from_mine(a_)]
+                if len(idx) == 1:
+                    sub = verify_encode_contract(hb, slice_param=idx[0] + 1, depth0=depth0 + 1)
+                    problems.extend("in %s: %s" % (hb.path.split("::")[-1], x_) for x_ in sub)
+                    return
             problems.append("returns the result of %s" % p)
             return
         problems.append("unsupported definition of the return value")
